@@ -377,7 +377,7 @@ def run(ctx):
                 ex_names.append("%s:%d" % (name, len(ils)))
             for il in ils:
                 cases.append(dict(base, sched=il + tail(2, 30)))
-        fam = sc.family_cases(sc.c12_families(), rng, thorough)
+        fam = sc.family_cases(sc.c12_families(), rng, thorough) + sc.c12_return_before_rebuild_cases()
         cases += fam
         rep.count("race-family-schedules", len(fam))
         rep.extra["race_families"] = sorted({c["family"] for c in fam})
